@@ -51,22 +51,29 @@ def check(ctx, rep):
     ciphers.state_census(ctx, rep, dh, dh + "::new", {dh + "::decrypt"})
     c07.wiring(ctx, rep, MOD, eh, dh, enc_fn, dec_fn, inline)
     derivs = []
+    want = ("HMAC", ("arr", tuple(("int", x) for x in TBC_SEED)), (P(1),))
+    alt = ("HMAC", ("const", TBC_SEED), (P(1),))
     for half in (eh, dh):
-        fn = half + "::new"
-        se = ctx.wrap.run(fn)
-        if se is None:
-            rep.violation("key-derivation", fn, "anchor", "not found")
-            continue
-        r = strip(se.ret)
         kf = c07.key_field(ctx, half)
-        if r[0] != "agg" or kf is None:
-            rep.violation("key-derivation", fn, "shape", "constructor result is not a single aggregate", se.body.loc())
+        kt = ctx.fb.ty(ctx.fb.adt_fields(half)[kf]["ty"]) if kf is not None else None
+        rep.check(kt is not None and kt.k == "array" and kt.len == 20, "key-derivation", half, "key-width", "stored key is [u8; 20]", "stored key type is %s" % (kt.s if kt else "?"))
+        # every construction site of the half (a helper extracted by a refactoring counts at its
+        # call sites): the stored key is HMAC-SHA1(seed; the site's 40-byte session-key parameter)
+        sites = sorted({b.path for b, bi, si, s_ in util.aggregates(ctx.fb, half) if b.path not in getattr(ctx.fb, "fresh_paths", ())})
+        if not sites or kf is None:
+            rep.violation("key-derivation", half + "::new", "anchor", "no construction site found")
             continue
-        b = util.bexpr(ctx, se, r[4][kf])
-        derivs.append(b)
-        want = ("HMAC", ("arr", tuple(("int", x) for x in TBC_SEED)), (P(1),))
-        alt = ("HMAC", ("const", TBC_SEED), (P(1),))
-        rep.check(b in (util.cb(want), util.cb(alt)), "key-derivation", fn, "hmac", "key = HMAC-SHA1(TBC seed; session key), all 20 bytes", "cipher key is %s, expected HMAC-SHA1(key=%s; arg1)" % (show_b(b)[:300], TBC_SEED.hex()), se.body.loc())
-        kt = ctx.fb.ty(ctx.fb.adt_fields(half)[kf]["ty"])
-        rep.check(kt.k == "array" and kt.len == 20, "key-derivation", half, "key-width", "stored key is [u8; 20]", "stored key type is %s" % kt.s)
-    rep.check(len(derivs) == 2 and derivs[0] == derivs[1], "key-derivation", MOD, "siblings-agree", "encrypter and decrypter derive the same key expression", "the two key derivations differ")
+        for fn in sites:
+            se = ctx.deep.run(fn)
+            if se is None:
+                rep.violation("key-derivation", fn, "anchor", "not found")
+                continue
+            vals = [v for (bi, si), (loc, v) in se.assigns.items() if v[0] == "agg" and v[1] == "adt" and v[2] == half]
+            if not vals:
+                rep.violation("key-derivation", fn, "shape", "constructor result is not a single aggregate", se.body.loc())
+                continue
+            for v in vals:
+                b = util.bexpr(ctx, se, v[4][kf])
+                derivs.append(b)
+                rep.check(b in (util.cb(want), util.cb(alt)), "key-derivation", fn, "hmac", "key = HMAC-SHA1(TBC seed; session key), all 20 bytes", "cipher key is %s, expected HMAC-SHA1(key=%s; arg1)" % (show_b(b)[:300], TBC_SEED.hex()), se.body.loc())
+    rep.check(len(derivs) >= 2 and all(d_ == derivs[0] for d_ in derivs), "key-derivation", MOD, "siblings-agree", "encrypter and decrypter derive the same key expression", "the two key derivations differ")
